@@ -166,3 +166,101 @@ def cell_flights(net: SimNet, prefix: bytes, since: int = 0) -> list[tuple[Fligh
         if c is not None:
             out.append((fl, c))
     return out
+
+
+# ---- hidden services (end-to-end circuits) -------------------------------------------------------------------------
+
+class DictDHT:
+    """
+    Dictionary-backed stand-in for the DHT provider interface used by HiddenTunnelCommunity.
+    """
+
+    def __init__(self, table: dict) -> None:
+        self.table = table
+
+    async def peer_lookup(self, mid: bytes, peer: Any = None) -> None:
+        return None
+
+    async def lookup(self, info_hash: bytes) -> tuple:
+        return info_hash, list(self.table.get(info_hash, []))
+
+    async def announce(self, info_hash: bytes, intro_point: Any) -> None:
+        self.table.setdefault(info_hash, []).append(intro_point)
+
+
+class IPv8Stub:
+    """
+    What HiddenTunnelCommunity needs from its IPv8 instance to start a PexCommunity.
+    """
+
+    def __init__(self, node: Any) -> None:
+        self.node = node
+        self.overlays: list = []
+        self.strategies: list = []
+        self.endpoint = node.endpoint
+        self.network = node.network
+
+    def add_strategy(self, overlay: Any, strategy: Any, target_peers: int) -> None:
+        self.overlays.append(overlay)
+        self.strategies.append((strategy, target_peers))
+
+    def get_overlay(self, cls: type) -> Any:
+        return next((o for o in self.overlays if isinstance(o, cls)), None)
+
+    def unload_overlay(self, overlay: Any) -> Any:
+        self.overlays = [o for o in self.overlays if o is not overlay]
+        return overlay.unload()
+
+
+class HiddenWorld(World):
+    """
+    n HiddenTunnelCommunity nodes with production default settings, a shared dictionary DHT and IPv8 stubs.
+    """
+
+    def __init__(self, loop: VirtualLoop, n: int, flags: Any = None, auto: bool = True, **settings: Any) -> None:
+        from ipv8.messaging.anonymization.hidden_services import HiddenTunnelCommunity
+        self.loop = loop
+        self.net = SimNet(loop, auto=auto)
+        self.trace = KeyTrace()
+        self.trace.install()
+        self.dht_table: dict = {}
+        allf = {1, 2, 4, 8}
+        self.nodes = []
+        for i in range(n):
+            node = nodes_mod.Node(self.net, i)
+            node.flags = set(flags(i)) if flags is not None else set(allf)
+            stub = IPv8Stub(node)
+            ov = node.add(HiddenTunnelCommunity, ipv8=stub, dht_provider=DictDHT(self.dht_table), **settings)
+            ov.settings.peer_flags = set(node.flags)
+            stub.overlays.append(ov)
+            node.stub = stub
+            self.nodes.append(node)
+        nodes_mod.full_mesh(self.nodes, 0, lambda b: sorted(b.flags))
+        self.prefix = self.nodes[0].overlay.get_prefix()
+        self.by_key = {nd.key.pub().key_to_bin(): nd for nd in self.nodes}
+        self.by_addr = {nd.address: nd for nd in self.nodes}
+        self.adapters = []
+        self.exit_log = []
+        loop.on_transport = self._on_transport
+        self._tindex = 0
+
+    async def link_e2e(self, seeder: Any, downloader: Any, info_hash: bytes, hops: int = 1, timeout: float = 60.0) -> tuple:
+        """
+        Run the real introduction-point / rendezvous / link flow. Returns (downloader circuit, seeder circuit) or None.
+        """
+        import asyncio
+        got = []
+        seeder.overlay.join_swarm(info_hash, hops, lambda addr: got.append(("seeder", addr)), seeding=True)
+        downloader.overlay.join_swarm(info_hash, hops, lambda addr: got.append(("downloader", addr)), seeding=False)
+        await asyncio.wait_for(seeder.overlay.create_introduction_point(info_hash), timeout)
+        await asyncio.sleep(1.0)
+        downloader.overlay.build_tunnels(hops)
+        await asyncio.sleep(1.0)
+        await asyncio.wait_for(downloader.overlay.do_peer_discovery(), timeout)
+        for _ in range(int(timeout)):
+            await asyncio.sleep(1.0)
+            d = [c for c in downloader.overlay.circuits.values() if c.ctype == "RP_DOWNLOADER" and c.e2e]
+            s = [c for c in seeder.overlay.circuits.values() if c.ctype == "RP_SEEDER" and c.hs_session_keys is not None]
+            if d and s:
+                return d[0], s[0]
+        return None
